@@ -147,10 +147,16 @@ int main() {
         for (std::size_t k = 0; k + 1 < t.size(); ++k) {
           double mid = 0.5 * (t[k] + t[k + 1]);
           long ev = index_of(*node, node->findHoppingDestination(mid));
-          // one quarter / three quarters must agree with the midpoint (constant on the cell)
-          long e1 = index_of(*node, node->findHoppingDestination(t[k] + 0.25 * (t[k + 1] - t[k])));
-          long e3 = index_of(*node, node->findHoppingDestination(t[k] + 0.75 * (t[k + 1] - t[k])));
-          if (e1 != ev || e3 != ev) ev = -2;
+          // one quarter / three quarters must agree with the midpoint (constant on the cell);
+          // cells only a few ulp wide (two thresholds that coincide up to rounding) have no
+          // distinct interior points and carry no measure
+          double q1 = t[k] + 0.25 * (t[k + 1] - t[k]);
+          double q3 = t[k] + 0.75 * (t[k + 1] - t[k]);
+          if (q1 > t[k] && q1 < mid && q3 > mid && q3 < t[k + 1]) {
+            long e1 = index_of(*node, node->findHoppingDestination(q1));
+            long e3 = index_of(*node, node->findHoppingDestination(q3));
+            if (e1 != ev || e3 != ev) ev = -2;
+          }
           std::cout << " " << ev << " " << std::llround(t[k] * S) << " " << std::llround(t[k + 1] * S);
         }
         std::cout << std::endl;
